@@ -934,8 +934,13 @@ fn parse_legacy_table(text: &str) -> Option<(Vec<String>, Vec<Vec<V>>)> {
 /// the final frame is the reference table of ALL rows, equal to what a non-terminal run of the same
 /// bytes prints, and every earlier frame is the reference table of a (non-decreasing) input prefix.
 fn chain_live(ctx: &mut Ctx, idx: usize, r: &mut Rng) {
+    chain_live_as(ctx, idx, r, "live-agg-of-agg")
+}
+
+/// the same family under another property's name (C14: the result describes the rows that
+/// arrived, whatever intermediate tables the refreshes went through)
+pub fn chain_live_as(ctx: &mut Ctx, idx: usize, r: &mut Rng, family: &str) {
     use super::c16::{frame_vs_plain, run_pipeline, split_frames};
-    let family = "live-agg-of-agg";
     let rows = 3 + r.below(24);
     let ch = gen_chain(r, rows);
     // wide and tall enough for every table of the run: no clipping, no ellipsis
